@@ -35,7 +35,14 @@ def cases(tier, variants):
         yield from comp.tiled_batches((5, 8), variants)
         yield from F.convex_cases(2, variants, (1, 3), fams=("qp", "soft"),
                                   hesses=("rot2",), extra=dict(part="icp"))
+        # all-boxed n=3 problems: iterations in which one variable reaches a bound while
+        # another leaves one (active set of the same size, different members)
+        yield from F.convex_cases(3, variants, (3,), fams=("qp",), hesses=("rot4",),
+                                  boxes=("box",), extra=dict(part="icp"))
     else:
+        yield from F.convex_cases(3, variants, (1, 3), fams=("qp", "soft"),
+                                  hesses=("rot2", "rot4"), boxes=("box",),
+                                  extra=dict(part="icp"))
         yield from comp.syn_batches((1, 2, 3), variants)
         yield from comp.tiled_batches((4, 5, 6, 7, 8, 9, 10), variants)
         yield from F.convex_cases(2, variants, (1, 3, 10), extra=dict(part="icp"))
@@ -98,7 +105,18 @@ def run(case):
         out, _ = comp.check_sub(x.copy(), g.copy(), lb, ub, comp.fresh_mats(mats), xc.copy())
         for s, d in out:
             found.append(V(s, x=x, g=g, **d))
-    with comp.interceptor("subspace_minimization", on_call):
+        # token for on_return: the reference answer for what the solver actually asked
+        xbr, _, _ = refs.ref_sub(x.copy(), xc.copy(), g.copy(), lb, ub, Bd)
+        return xbr
+
+    def on_return(a, ret, xbr):
+        # the point the running solver really got (with the partition it really passed)
+        if xbr is None:
+            return
+        got = np.asarray(ret, dtype=float).ravel()
+        if not comp.close(got, xbr, 1e-8, 1e-9):
+            found.append(V("sub_wrong_in_the_running_solver", got=got, ref=xbr))
+    with comp.interceptor("subspace_minimization", on_call, on_return):
         minimize_lbfgsb(x0=p.x0.copy(), fun=p.f, jac=p.g, bounds=p.bounds,
                         maxcor=case["maxcor"], ftol=0.0, gtol=1e-6, maxiter=40)
     return dict(viol=found[:10], nontrivial=(core.case_hash(case) if cnt[0] else None),
